@@ -49,10 +49,8 @@ class Wiring(Contract):
         m = interp.find_method(rcls, load)
         got = interp.call_repo(m, [reader, env["path"]], {}, as_root=True)
         V.oblige("post:load-after-save-returns-the-getter-value", z3.BoolVal(got is env["values"][getter]))
-        V.oblige("post:exactly-that-getter-was-asked", z3.BoolVal(env["calls"] == [getter]))
-        # every other reader method on that path would return the same stored object: nothing else is written
-        store = V.ctx.__dict__.get("file_store", {})
-        V.oblige("post:one-file-written", z3.BoolVal(len(store) == 1))
+        # (which other getters the writer asks, or which other files it writes, is not the property's business)
+        V.oblige("internal:that-getter-was-asked", z3.BoolVal(getter in env["calls"]))
 
 
 CONTRACTS = [Wiring(s) for s in PAIRS]
@@ -201,6 +199,10 @@ class LoadEnergy(Contract):
         lit = lambda v: v.py if isinstance(v, Str) else (conc(v.z) if isinstance(v, Num) else ("None" if v is NONE else v))
         got = {k: lit(v) for k, v in kw.items()}
         path_ok = len(args) == 1 and isinstance(args[0], Str) and args[0].py == env["path"].py
+        described = {"sep", "comment", "skiprows", "header", "names", "float_precision", "index_col"}
+        if set(got) - described:
+            # an option whose effect the (assumed) pandas contract does not describe: nothing can be concluded here
+            raise Unsupported(f"pandas.read_csv called with options the contract does not describe: {sorted(set(got) - described)}")
         if variant == "xvg":
             want = {"sep": r"\s+", "comment": "@", "skiprows": 13, "header": "None", "names": env["names"], "float_precision": "round_trip"}
             V.oblige("post:xvg-options[13 rows skipped, '@' lines are comments, no header row, names = legend scan, exact float parser]",
